@@ -7,7 +7,7 @@ import Fbr.Lemmas.PtRef
 namespace Fbr.PtRefs
 
 /-- `s, sp ⟶ s', sp'`: the server state and the client ledger move together.  The flag says
-    whether the tables were cleared on the way (`destroy`). -/
+    whether the root was (re-)imported or the tables cleared on the way (`init`, `destroy`). -/
 inductive Tr (e : Env) : Bool → St → Spec → St → Spec → Prop
   | frame {s s' : St} {sp : Spec} (hd : s'.data = s.data) (hc : s'.clobbered = s.clobbered)
       (hl : s'.lookups = s.lookups) (hb : s'.byId = s.byId) (hy : s'.byHandle = s.byHandle)
@@ -23,12 +23,13 @@ inductive Tr (e : Env) : Bool → St → Spec → St → Spec → Prop
       (hy : s'.byHandle = (match d.fh with
         | some h => mput s.byHandle h ROOT_ID
         | none => s.byHandle))
-      (hn : s'.next = s.next) : Tr e false s sp s' sp
+      (hn : s'.next = s.next) : Tr e true s sp s' sp
   | clear {s s' : St} {sp : Spec} (hd : s'.data = []) (hc : s'.clobbered = s.clobbered)
       (hl : s'.lookups = s.lookups) (hb : s'.byId = []) (hy : s'.byHandle = [])
       (hn : s'.next = s.next) : Tr e true s sp s' Spec.init
   | trans {b1 b2 : Bool} {a b c : St} {sa sb sc : Spec} :
       Tr e b1 a sa b sb → Tr e b2 b sb c sc → Tr e (b1 || b2) a sa c sc
+  | relax {s s' : St} {sp sp' : Spec} : Tr e false s sp s' sp' → Tr e true s sp s' sp'
 
 theorem Tr.of_tables {e : Env} {s s' : St} {sp : Spec} (h : s'.tables = s.tables) :
     Tr e false s sp s' sp :=
@@ -54,6 +55,7 @@ theorem Tr.mono {e : Env} {b : Bool} {s s' : St} {sp sp' : Spec} (h : Tr e b s s
   | setRoot _ _ hc hl => exact ⟨fun x => by rw [← hc]; exact x, by omega⟩
   | clear _ hc hl => exact ⟨fun x => by rw [← hc]; exact x, by omega⟩
   | trans _ _ ih1 ih2 => exact ih1.trans ih2
+  | relax _ ih => exact ih
 
 theorem Tr.good {e : Env} {b : Bool} {s s' : St} {sp sp' : Spec} (h : Tr e b s sp s' sp')
     (g : Good s sp) (ok : OK s') : Good s' sp' := by
@@ -79,6 +81,7 @@ theorem Tr.good {e : Env} {b : Bool} {s s' : St} {sp sp' : Spec} (h : Tr e b s s
     · intro i _; simp [hd, Spec.init]
     · intro i d' hi; simp [hd] at hi
   | trans h1 h2 ih1 ih2 => exact ih2 (ih1 g (h2.mono.ok ok)) ok
+  | relax _ ih => exact ih g ok
 
 /-- undoing the reference of an entry that did not reach the client -/
 theorem deliver_forget_cancel (sp : Spec) (i : Ino) : (sp.deliver i).forget i 1 = sp := by
